@@ -280,7 +280,7 @@ class UnitRun:
                 "possible arithmetic underflow/overflow", "possible division by zero", "decreases not satisfied",
                 "rlimit", "Resource limit", "possible bit shift underflow/overflow", "index out of bounds",
                 "unreachable", "failed", "possible", "not satisfied", "could not prove", "loop invariant", "recommendation not met",
-                "termination", "function body check"]
+                "termination", "function body check", "not met"]
         return any(k in msg for k in keys)
 
 
